@@ -38,6 +38,13 @@ type DrvCase struct {
 	// depend on unless CASCADE is given), bit 4 = two tables whose foreign keys reference each other
 	// are created in the first schema.
 	Replay int `json:"replay"`
+	// Op: "" = Snapshot, replay, restore (above); "normalize" = the driver's own NormalizeSchema (bound
+	// connection) / NormalizeRealm (unbound) of a one-table desired state: the command takes the
+	// snapshot, creates the table, inspects and restores by itself.
+	Op string `json:"op,omitempty"`
+	// Fail: the n-th ApplyChanges call of the command fails (connection lost) and changes nothing;
+	// 1 = creating the desired state, 2 = the restore. 0 = none.
+	Fail int `json:"fail,omitempty"`
 }
 
 func (c DrvCase) names() []string {
@@ -121,6 +128,7 @@ type mockDB struct {
 	bound         string
 	problems      []string
 	applied       []string
+	calls, fail   int
 }
 
 func (m *mockDB) InspectSchema(_ context.Context, name string, _ *schema.InspectOptions) (*schema.Schema, error) {
@@ -206,6 +214,9 @@ func (m *mockDB) key(qid string) (string, string) {
 // catalogue the way the server would: a table cannot be dropped while a foreign key of another
 // table references it or (PostgreSQL) while another object depends on it, unless CASCADE is given.
 func (m *mockDB) ApplyChanges(ctx context.Context, changes []schema.Change, opts ...migrate.PlanOption) error {
+	if m.calls++; m.calls == m.fail {
+		return fmt.Errorf("driver: bad connection")
+	}
 	plan, err := m.planner().PlanChanges(ctx, "restore", changes, opts...)
 	if err != nil {
 		return err
@@ -367,6 +378,50 @@ func EvalDriver(c DrvCase) (problems []string, outcome string) {
 		return []string{"harness: " + err.Error()}, "harness"
 	}
 	defer closeDB()
+	if c.Op == "normalize" {
+		m.fail = c.Fail
+		owned := init.tables()
+		if bound {
+			owned = len(init[names[0]])
+		}
+		desired := schema.New("app_desired")
+		desired.AddTables(schema.NewTable("norm_t").AddColumns(schema.NewIntColumn("id", "int")))
+		var err error
+		if c.Bound {
+			_, err = drv.(schema.Normalizer).NormalizeSchema(context.Background(), desired)
+		} else {
+			_, err = drv.(schema.Normalizer).NormalizeRealm(context.Background(), schema.NewRealm(desired))
+		}
+		problems = append(problems, m.problems...)
+		same := m.cat.String() == init.String()
+		if _, refused := err.(*migrate.NotCleanError); refused && owned == 0 {
+			// refusing is always safe (an unbound connection owns every schema, empty ones included).
+			if !same {
+				bad("the dev database was refused but changed: %s -> %s", init, m.cat)
+			}
+			return problems, "refused"
+		}
+		switch {
+		case owned > 0 && err == nil:
+			bad("a dev database holding %d user table(s) was used for normalisation (%s)", owned, init)
+			return problems, "accepted-nonempty"
+		case owned > 0 && !same:
+			bad("a dev database holding user tables was refused but changed: %s -> %s", init, m.cat)
+			return problems, "refused"
+		case owned > 0:
+			return problems, "refused"
+		case !same && err == nil:
+			bad("the dev database is not handed back as it was (before %s, after %s; statements %v) and the command reports success", init, m.cat, m.applied)
+		case c.Fail == 0 && err != nil && init[names[0]] != nil:
+			bad("normalisation on an empty dev database fails: %v", err)
+		case c.Fail != 0 && m.calls >= c.Fail && err == nil:
+			bad("a failing step (ApplyChanges call %d) is not reported by the command", c.Fail)
+		}
+		if err != nil {
+			return problems, "normalize-error"
+		}
+		return problems, "normalized-restored"
+	}
 	restore, err := drv.Snapshot(context.Background())
 	if m.cat.String() != init.String() {
 		bad("Snapshot itself changed the database: %s -> %s", init, m.cat)
@@ -450,6 +505,9 @@ func drvCases() []DrvCase {
 							continue // the dependent object hangs off a replayed table; modelled for PostgreSQL
 						}
 						cs = append(cs, DrvCase{Dialect: d, State: []int{s0, s1}, Bound: b, Replay: rp})
+					}
+					for f := 0; f <= 2; f++ {
+						cs = append(cs, DrvCase{Dialect: d, State: []int{s0, s1}, Bound: b, Op: "normalize", Fail: f})
 					}
 				}
 			}
